@@ -25,6 +25,10 @@ META = {
     "assumptions": [],
 }
 
+import logging as _logging
+
+_NULL = _logging.NullHandler()
+
 KINDS = ["T0", "T1", "B0", "B1", "C0", "C1", "PING", "PONG", "CLOSE"]
 
 
@@ -107,6 +111,7 @@ def run(res, tier, seed, shard, nshards):
             if c[0] == "hdr":
                 hdr_case(res, W, rng, c)
             elif c[0] in ("close", "close1"):
+                W.enableTrace(False)
                 close_case(res, W, rng, c)
             elif c[0] == "seq":
                 seq_case(res, W, rng, c[1], exhaustive=True)
@@ -118,10 +123,16 @@ def run(res, tier, seed, shard, nshards):
                 seq_case(res, W, rng, tuple(seq), exhaustive=False)
 
     H.in_sim(scen, watchdog=3000)
+    W.enableTrace(False)
 
 
 def hdr_case(res, W, rng, c):
     _, b0, mask, lc, state = c
+    # the process-wide trace switch adds a second formatting path over every received frame
+    trace_on = (b0 + mask) % 4 == 0
+    W.enableTrace(trace_on, handler=_NULL)
+    if trace_on:
+        res.count("hdr_cases_with_trace_on")
     n = {"0": 0, "1": 1, "2": 2, "125": 125, "126": 126, "65536": 65536, "126-as-7bit-max": 125}[lc]
     fin, rsv, op = b0 >> 7, (b0 >> 4) & 7, b0 & 15
     if op == R.CLOSE and n >= 2:
